@@ -267,10 +267,14 @@ def _strip_expand(e):
     return e, None
 
 
+_MASKS = ["s_aff", "o_aff"]      # (self mask, other mask) of the function
+                                  # being judged; set by rule_k2
+
+
 def _mask_case(e, defs, axes, depth=0):
     """-> frozenset of (name, polarity) literals of a conjunction, or None."""
     if isinstance(e, ast.Name) and e.id in defs and depth < 4 \
-            and e.id not in ("s_aff", "o_aff"):
+            and e.id not in _MASKS:
         return _mask_case(defs[e.id], defs, axes, depth + 1)
     e, ax = _strip_expand(e)
     if isinstance(e, ast.Name):
@@ -379,7 +383,7 @@ def _full_table(cases, default):
         for o in (True, False):
             val = ("const", default)
             for mc, v in cases:
-                if all({"s_aff": s, "o_aff": o}.get(nm) == pol
+                if all({_MASKS[0]: s, _MASKS[1]: o}.get(nm) == pol
                        for nm, pol in mc):
                     val = ("v", v[0], v[1])
             t[(s, o)] = val
@@ -412,6 +416,55 @@ def rule_k2(ctx):
         f = ctx.p.get_function(CP_REL, f"CP1Disk.{mname}")
         r.analysed(f)
         defs = single_defs(f.node)
+        # which locals play which role is read off where they come from:
+        # <self-ish>.center_inside() / <other-ish>.center_inside() for the
+        # two bounded-ness masks, .circle_parameters() for centres / radii,
+        # np.full / np.zeros / np.ones for the result table
+        other_param = next((p for p in f.params if p != "self"), "other")
+
+        def role_of(recv, depth=0):
+            if isinstance(recv, ast.Name):
+                if recv.id == "self":
+                    return "self"
+                if recv.id == other_param:
+                    return "other"
+                if depth < 3:
+                    roles = set()
+                    for x in ast.walk(f.node):
+                        if isinstance(x, ast.Assign) and any(
+                                dotted(t) == recv.id for t in x.targets):
+                            for y in ast.walk(x.value):
+                                if isinstance(y, ast.Name) and y.id in (
+                                        "self", other_param):
+                                    roles.add("self" if y.id == "self"
+                                              else "other")
+                    if len(roles) == 1:
+                        return roles.pop()
+            elif isinstance(recv, (ast.Attribute, ast.Call, ast.Subscript)):
+                names = {y.id for y in ast.walk(recv)
+                         if isinstance(y, ast.Name)}
+                if "self" in names and other_param not in names:
+                    return "self"
+                if other_param in names and "self" not in names:
+                    return "other"
+            return None
+        masks, params4 = {}, {}
+        for x in ast.walk(f.node):
+            if isinstance(x, ast.Assign) and isinstance(x.value, ast.Call) \
+                    and isinstance(x.value.func, ast.Attribute):
+                ro = role_of(x.value.func.value)
+                if x.value.func.attr == "center_inside" and ro \
+                        and isinstance(x.targets[0], ast.Name):
+                    masks[ro] = x.targets[0].id
+                if x.value.func.attr == "circle_parameters" and ro \
+                        and isinstance(x.targets[0], ast.Tuple) \
+                        and len(x.targets[0].elts) == 2:
+                    params4[ro] = [dotted(e) for e in x.targets[0].elts]
+        if set(masks) != {"self", "other"}:
+            raise AnalysisError(
+                f"CP1Disk.{mname}: the two center_inside() masks were not "
+                "found")
+        _MASKS[:] = [masks["self"], masks["other"]]
         # receiver/argument order at the disk_interactions call
         call = None
         for n in ast.walk(f.node):
@@ -466,7 +519,7 @@ def rule_k2(ctx):
         for st in ast.walk(elem_arm):
             if isinstance(st, ast.Assign) and len(st.targets) == 1 \
                     and isinstance(st.targets[0], ast.Subscript) \
-                    and dotted(st.targets[0].value) == "res":
+                    and dotted(st.targets[0].value) in tables:
                 mc = _mask_case(st.targets[0].slice, defs, {})
                 if mc is None:
                     raise AnalysisError(
@@ -478,7 +531,7 @@ def rule_k2(ctx):
             if id(n) in elem_nodes:
                 continue
             if isinstance(n, ast.Call) and dotted(n.func) == "np.putmask" \
-                    and len(n.args) == 3 and dotted(n.args[0]) == "res":
+                    and len(n.args) == 3 and dotted(n.args[0]) in tables:
                 mc = _mask_case(n.args[1], defs, axes)
                 if mc is None:
                     raise AnalysisError(
@@ -492,7 +545,7 @@ def rule_k2(ctx):
                     and x.value is not None]
             dflt = None
             for x in ast.walk(f.node):
-                if isinstance(x, ast.Assign) and dotted(x.targets[0]) == "res" \
+                if isinstance(x, ast.Assign) and dotted(x.targets[0]) in tables \
                         and isinstance(x.value, ast.Call) \
                         and dotted(x.value.func) == "np.full" \
                         and len(x.value.args) == 2 and isinstance(
@@ -501,7 +554,7 @@ def rule_k2(ctx):
             if len(rets) == 1 and dflt is not None:
                 try:
                     te4 = {(sv, ov): _sym_eval(rets[0].value,
-                                               {"s_aff": sv, "o_aff": ov},
+                                               {_MASKS[0]: sv, _MASKS[1]: ov},
                                                defs)
                            for sv in (True, False) for ov in (True, False)}
                 except _NoTable as ex:
@@ -565,8 +618,8 @@ def rule_k2(ctx):
                 "bounded/unbounded case with the wrong array",
                 instance=f"{mname}:case-table")
         # axis agreement
-        s_axes = axes.get("s_aff", set())
-        o_axes = axes.get("o_aff", set())
+        s_axes = axes.get(_MASKS[0], set())
+        o_axes = axes.get(_MASKS[1], set())
         if s_axes == {ax_s} and o_axes == {ax_o}:
             r.ok("K2", f"{mname}:axes", loc(f, f.node), "",
                  f"self masks expand on axis {ax_s}, other on axis {ax_o}, as "
@@ -581,7 +634,11 @@ def rule_k2(ctx):
                 instance=f"{mname}:axes")
         # self's parameters are the first disk
         a = [dotted(x) for x in call.args[:4]]
-        if a[:2] == ["sctr", "srad"] and a[2:4] == ["octr", "orad"]:
+        if set(params4) != {"self", "other"}:
+            r.note("K2", loc(f, call), dotted(call)[:80],
+                   "circle_parameters() results not found by role (roles of "
+                   "the disk_interactions arguments not judged)")
+        elif a[:2] == params4["self"] and a[2:4] == params4["other"]:
             r.ok("K2", f"{mname}:roles", loc(f, call), dotted(call)[:100],
                  "self is the first disk, other the second")
         else:
